@@ -1215,11 +1215,7 @@ func runC17(r *core.Run) (bool, string) {
 		r.Count("scenarios", int64(len(scs)))
 	}
 	// ---- families on modules of their own: build constraints; sibling output directories that are string prefixes
-	t0 := time.Now()
 	c.runConstraints(r, rng.Fork("constraints"))
-	r.Set("seconds_build_constraints", int(time.Since(t0).Seconds()))
-	t0 = time.Now()
-	defer func() { r.Set("seconds_prefix_siblings", int(time.Since(t0).Seconds())) }()
 	if !c.runPrefixSiblings(r, rng.Fork("prefix-siblings")) {
 		return false, "cannot write the prefix-sibling module"
 	}
